@@ -148,16 +148,20 @@ def layoutFor (v : String) (isWrite : Bool) (o : OptSet) (maxDigits : Int) (show
   let r := resolveOpts v isWrite o
   layout (resolve r.row r.col r.showCount r.missing r.tlf r.ld maxDigits) shown
 
-/-- highest position whose cell starts within the first `limit` bytes of the layout: a printer that
-stops promptly after a fault at byte k with a buffer of B bytes has no reason to pull digits
-beyond it (limit = k + B + slack) -/
-def lastCellWithin (o : POpts) (shown : List (Nat × Nat)) (limit : Nat) : Int :=
-  let rec go : List Nat → Bool → Nat → Int → Int
-    | [], _, _, acc => acc
-    | q :: rest, first, off, acc =>
-      if off ≥ limit then acc
-      else go rest false (off + (cellBytes o shown first q).length) q
-  go (cells o shown) true 0 (-1)
+/-- The printer emits the missing marks before a shown position only when that position's digit
+arrives. So digit `p` of the shown list must be pulled iff the output up to the END of the
+previous shown cell is shorter than `limit` (= fault offset + one buffer + slack). Returns the
+highest shown position that a promptly stopping printer may have to pull. -/
+def lastShownNeeded (o : POpts) (shown : List (Nat × Nat)) (limit : Nat) : Int :=
+  let rec go : List Nat → Bool → Nat → Nat → Int → Int
+    -- cells left, first?, offset so far, offset at the end of the previous SHOWN cell, answer
+    | [], _, _, _, acc => acc
+    | q :: rest, first, off, prevEnd, acc =>
+      let off' := off + (cellBytes o shown first q).length
+      if shown.any (fun (p, _) => p == q) then
+        if prevEnd < limit then go rest false off' off' q else acc
+      else go rest false off' prevEnd acc
+  go (cells o shown) true 0 0 (-1)
 
 def popts (v : String) (isWrite : Bool) (o : OptSet) (maxDigits : Int) : POpts :=
   let r := resolveOpts v isWrite o
@@ -464,7 +468,7 @@ def specStmt (v : String) (sd : SD) (st : SSt) (s : Stmt) (res : String) : Strin
         | .fpr _ _ _ mode k =>
           -- prompt stop: digits are needed only for the bytes up to the fault plus one buffer
           let bs : Nat := match o.bufSize with | some b => if b ≤ 0 then 4096 else b.toNat | none => 4096
-          let rf := if mode ≤ 2 ∧ k < want.length then min r (lastCellWithin (popts v false o endP) shown (k + bs + 32)) else r
+          let rf := if mode ≤ 2 ∧ k < want.length then min r (lastShownNeeded (popts v false o endP) shown (k + bs + 32)) else r
           (checkFault want res mode k, bump st rf)
         | _ => (if res == hexOf want then "ok" else fail "Sprint" res (hexOf want), bump st r)
   | .wr h o | .fwr h o _ _ =>
